@@ -487,7 +487,11 @@ var LogFunc = function.New(&function.Spec{
 			return cty.UnknownVal(cty.String), err
 		}
 
-		return cty.NumberFloatVal(math.Log(num) / math.Log(base)), nil
+		result := math.Log(num) / math.Log(base)
+		if math.IsNaN(result) {
+			return cty.UnknownVal(cty.Number), fmt.Errorf("the logarithm of %s in base %s is not a real number", args[0].AsBigFloat().Text('g', -1), args[1].AsBigFloat().Text('g', -1))
+		}
+		return cty.NumberFloatVal(result), nil
 	},
 })
 
